@@ -189,6 +189,14 @@ def predicates(case, impl):
     if impl.get("raise"):
         fail("total", f"valid configuration raises {impl['raise']}: {impl.get('msg')}")
         return out
+    for clause, detail in fu.stateless_failures(case, impl):
+        fail(clause, detail)
+    if impl.get("stored_idx") is not None:
+        for clause, detail in fu.subset_failures(case, impl):
+            fail(clause, detail)
+        return out
+    if out:
+        return out
     ph = fu.physical(case.get("config"))
     n, N, dt = impl["n"], impl["N"], impl["dt"]
     XT = np.asarray(impl["XT"])
@@ -333,6 +341,8 @@ def classify(case, impl):
     if impl.get("raise"):
         tags.append(f"raise={impl['raise']}")
         return tags
+    if impl.get("stored_idx") is not None:
+        return tags + [f"recorded subset of {len(impl['stored_idx'])} vials (unsorted int list)"]
     mL, mN, mS = transitions(impl)
     _TOTALS["liquid"] += int(mL.sum())
     _TOTALS["nucleation"] += int(mN.sum())
@@ -476,7 +486,12 @@ def _history(rng, tier, force=None):
     oc["t_tot"] = min(oc["t_tot"], c["dt"] * 500)
     if c.get("T0") is None:
         c["T0"] = oc["start"]
-    what = force or rng.choice(["rate", "rate_fine", "rate_fine", "t_tot", "hold", "dt", "T0", "s0", "rate+dt"])
+    what = force or rng.choice(["rate", "rate_fine", "rate_fine", "t_tot", "hold", "dt", "T0", "s0", "rate+dt", "shape"])
+    if what == "shape":
+        a, b = rng.choice([(4, 3), (2, 3), (3, 2), (4, 2), (1, 4), (5, 2)])
+        c["N_vials"] = [a, b, 1]
+        while stability(c) > 0.9:
+            c["dt"] = c["dt"] / 2
     pre = {"how": rng.choice(["mutate", "assign"])}
     poc = json.loads(json.dumps(oc))
     if what in ("rate", "rate+dt"):
@@ -512,6 +527,10 @@ def _history(rng, tier, force=None):
     if what == "s0":
         pre["k"] = dict(c["k"])
         pre["k"]["s0"] = c["k"]["s0"] * rng.choice([0.5, 0.9])
+    if what == "shape":
+        # the batch is re-declared with another shape of the same size, then a new seed is set
+        pre["N_vials"] = [c["N_vials"][1], c["N_vials"][0], 1]
+        pre["seed"] = c["seed"] + 1
     if "T0" not in pre:
         pre["T0"] = c["T0"]
     c["pre"] = pre
@@ -539,6 +558,25 @@ def _tiny(rng, tier):
                 initIce=rng.choice(["indirect", "direct", "Direct"]), threshold=0.9, eps=eps)
 
 
+def _subset(rng, tier):
+    """states recorded for an UNSORTED list of vial indices"""
+    c = _late_cn(rng, tier) if rng.random() < 0.5 else _structured(rng, tier)
+    c["kind"] = "subset"
+    c["N_vials"] = [rng.randint(3, 5), rng.randint(2, 4), 1]
+    if "s0" not in c["k"]:
+        c["k"] = {"int": 20, "ext": 20, "s0": 300}
+    c["k"]["s_sigma_rel"] = rng.choice([0.1, 0.3])      # vials differ
+    while stability(c) > 0.9:
+        c["dt"] = c["dt"] / 2
+    c["opcond"]["t_tot"] = min(c["opcond"]["t_tot"], c["dt"] * 600)
+    n = c["N_vials"][0] * c["N_vials"][1]
+    idx = rng.sample(range(n), rng.randint(2, min(5, n)))
+    if idx == sorted(idx):
+        idx.reverse()
+    c["store"] = idx
+    return c
+
+
 def _late_cn(rng, tier):
     """controlled nucleation that triggers AFTER some vials have nucleated spontaneously: at the
     trigger step only the still-liquid supercooled vials may nucleate"""
@@ -559,7 +597,9 @@ def cases(rng, tier):
     for _ in range(n):
         yield _structured(rng, tier)
     for j in range(nh):
-        yield _history(rng, tier, force="rate_fine" if j < 4 else None)
+        yield _history(rng, tier, force="rate_fine" if j < 4 else "shape" if j < 6 else None)
+    for _ in range(4 if tier == "quick" else 40):
+        yield _subset(rng, tier)
     for _ in range(nt):
         yield _tiny(rng, tier)
 
